@@ -36,15 +36,15 @@ EXPLANATION = ("Exhaustive sub-space (both tiers): every labelled graph up to is
                "edge labels {single,double} (9689 graphs) and on 5 nodes over {C,O}x{single} - exact count, orbits, components, anchor and the "
                "WL-1 colours after 0,1,2,10 rounds are compared with the model and with brute force.  Everything else is seeded random / "
                "corpus sampling.  Theorems (coq/props/C11.v, all closed under the global context): C11_aut_count, C11_aut_group, "
-               "C11_vf2_contract, C11_orbits_exact, C11_orbits_partition, C11_components, C11_wl_never_splits, C11_wfb_sound, "
+               "C11_vf2_contract, C11_vf2_contract_items, C11_orbits_exact, C11_orbits_partition, C11_components, C11_wl_never_splits, C11_wfb_sound, "
                "C11_dedup_sublist, C11_prune_complete, C11_prune_complete_aut, C11_prune_same_results.")
 TRUSTED_BASE = [
     "Coq 8.16.1 kernel + vm_compute (no native_compute)",
     "hand-written model coq/model/C11_Model.v tied to synkit/Graph/Matcher/{automorphism,auto_est,dedup_matches}.py and the pruning call of "
     "SynReactor.mappings() by the per-run correspondence",
     "networkx VF2 isomorphisms_iter is modelled by the verified enumerator lib/Mono.v (induced, G into G).  The code uses only the number of "
-    "enumerated maps and the set of their (node, image) pairs; C11_vf2_contract shows that any duplicate-free listing of exactly the "
-    "label-preserving automorphisms gives the same analysis; that VF2 is such a listing is monitored on every case (count, orbit sets, number "
+    "enumerated maps and the set of their (node, image) pairs; C11_vf2_contract(_items) show that any duplicate-free listing of exactly the "
+    "label-preserving automorphisms (maps as dictionaries, item order free) gives the same analysis; that VF2 is such a listing is monitored on every case (count, orbit sets, number "
     "of rule automorphisms) and independently against a brute-force Python enumerator in the oracle",
     "harness encoders harness/props/C11.py (attribute tuples interned injectively to N; dict order shipped as list order); the theorems' "
     "premise wf (distinct node ids, edges between distinct listed nodes, one entry per unordered pair) is computed by the model function wfb "
